@@ -22,7 +22,7 @@
 // Part 1b (concurrent sessions). The admin listener runs one goroutine per connection and each calls
 // imperatives.Apply unlocked. Groups of 4 sessions, each with a table of its own, apply generated
 // configurations at the same moment (barrier before every round; commands through imperatives.Apply
-// directly, a quarter of the cases also as TOML); every session's entries go through the same oracle
+// directly; in a quarter of the rounds every session loads the TOML form as well); every session's entries go through the same oracle
 // as in part 1: no valid command refused, every field as written, same probes. On the unchanged tree
 // the race detector reports the re-initialisation of the package-level token table
 // (toki.NewScanner writes tokens[i].regexp) for these overlapping calls; the driver records those
@@ -1657,8 +1657,11 @@ func runSessions(res *mon.Result, scratch string, watch *gnWatch, groups, nsess,
 						c.Agg[i].Fun = "sum"
 					}
 				}
+				// a quarter of the rounds: every session also loads the structured form first (cfg.InitTable,
+				// imperatives.ParseDestinations), so that those calls meet each other and, as the sessions
+				// get through them at different speeds, the commands of the quicker sessions
 				sy := []string{"command"}
-				if pr.Intn(4) == 0 { // a configuration file being loaded next to the admin sessions (ParseDestinations)
+				if mon.NewRng(mon.Seed(), 24, uint64(g*rounds+r)).Intn(4) == 0 {
 					sy = []string{"toml", "command"}
 				}
 				plan[s] = append(plan[s], c)
@@ -1922,7 +1925,7 @@ func runExpand(res *mon.Result, scratch string, nStrings int) (done int) {
 
 func main() {
 	res := mon.NewResult("C20")
-	res.Rule = "part 1: configurations generated from (seed,index): blacklist entries (6 kinds), rewriters (plain/regex, max, not), aggregations (9 command functions + percentiles TOML-only, 6 filter options, sub/substr spellings, cache and dropRaw given true/false/omitted), carbon routes (3 types, 6 filter options, 1-4 destinations each with a random subset of the 18 documented destination options) and grafanaNet routes (all 11 options, booleans true/false/omitted, 1-2 routes per file, sometimes next to a carbon route); each option value unique within its case and never equal to a documented default; each configuration is built from its TOML form and from the equivalent commands (directly, or through an [init] cmds array) and every field is compared with written-value-else-documented-default; names, patterns, keys and templates are mixed-case and use \\S \\D \\W \\d \\B, [A-Z] ranges and named groups, and every filter/rewriter probe is repeated lower-cased, upper-cased and case-swapped; part 1b: groups of 4 concurrent sessions (own table each, barrier before each round) apply generated blacklist/rewriter/aggregation/carbon configurations through imperatives.Apply (a quarter also as TOML) and are judged by the same oracle; evaluation = one configuration (both syntaxes) or one '$'-string; non-trivial = at least one option given and one left to its default and both syntaxes built; distinct = distinct given/omitted patterns (values ignored). part 2: '$'-strings from a grammar of documented references, near misses, group references ($1 ${1} ${1}x), $$ ${} unterminated braces, shell specials, non-ASCII bytes, read through the real readConfigFile in the real binary; non-trivial = contains a documented reference and a '$' that must stay. Values are restricted to what the command grammar can express at all: no blanks, no quotes or '#', not all digits, not starting with true/false or a command keyword. kafkaMdm, pubsub and cloudWatch routes cannot be constructed offline (brokers / credentials) and are out of scope."
+	res.Rule = "part 1: configurations generated from (seed,index): blacklist entries (6 kinds), rewriters (plain/regex, max, not), aggregations (9 command functions + percentiles TOML-only, 6 filter options, sub/substr spellings, cache and dropRaw given true/false/omitted), carbon routes (3 types, 6 filter options, 1-4 destinations each with a random subset of the 18 documented destination options) and grafanaNet routes (all 11 options, booleans true/false/omitted, 1-2 routes per file, sometimes next to a carbon route); each option value unique within its case and never equal to a documented default; each configuration is built from its TOML form and from the equivalent commands (directly, or through an [init] cmds array) and every field is compared with written-value-else-documented-default; names, patterns, keys and templates are mixed-case and use \\S \\D \\W \\d \\B, [A-Z] ranges and named groups, and every filter/rewriter probe is repeated lower-cased, upper-cased and case-swapped; part 1b: groups of 4 concurrent sessions (own table each, barrier before each round) apply generated blacklist/rewriter/aggregation/carbon configurations through imperatives.Apply (in a quarter of the rounds also as TOML) and are judged by the same oracle; evaluation = one configuration (both syntaxes) or one '$'-string; non-trivial = at least one option given and one left to its default and both syntaxes built; distinct = distinct given/omitted patterns (values ignored). part 2: '$'-strings from a grammar of documented references, near misses, group references ($1 ${1} ${1}x), $$ ${} unterminated braces, shell specials, non-ASCII bytes, read through the real readConfigFile in the real binary; non-trivial = contains a documented reference and a '$' that must stay. Values are restricted to what the command grammar can express at all: no blanks, no quotes or '#', not all digits, not starting with true/false or a command keyword. kafkaMdm, pubsub and cloudWatch routes cannot be constructed offline (brokers / credentials) and are out of scope."
 	res.Assume("the documentation (docs/config.md, docs/tcp-admin-interface.md, docs/aggregation.md, docs/rewriting.md, examples/carbon-relay-ng.ini) is the specification; 2M = 2 000 000, 10k = 10 000, 200MiB = 200*1024*1024")
 	res.Assume("${HOST} is the first label of os.Hostname() of the machine running the check")
 	res.Assume("table.MockTable (embedded, with GetSpoolDir overridden to a scratch directory) receives exactly what the real table would")
